@@ -1622,6 +1622,13 @@ _resource_tracker""")),
                     pass""", """                except KeyError:
                     pass""")),
 
+    M("wrap-reduce-cached-payload", ["C16"], ["R-WRAP-REDUCE"],
+      (CW, """        _pickled_object = dumps(self._obj)
+        if not self._keep_wrapper:""", """        if getattr(self, "_payload", None) is None:
+            self._payload = dumps(self._obj)
+        _pickled_object = self._payload
+        if not self._keep_wrapper:""")),
+
 ]
 
 
